@@ -122,7 +122,9 @@ def handlers(emit, repo):
 
     def write_input(path, names, descs, style):
         with open(path, "w") as f:
-            if style == 0:      # the generator's style: str(dict) with line breaks
+            if not names:
+                f.write("# no games\n{}\n" if style == 0 else "{\n    # nothing here yet\n}\n")
+            elif style == 0:      # the generator's style: str(dict) with line breaks
                 f.write("# Board:\n#\n#   [0|<>( )]\n\n{\n")
                 for i, (n, d) in enumerate(zip(names, descs)):
                     f.write(" %r: " % n)
@@ -184,7 +186,8 @@ def handlers(emit, repo):
         try:
             os.makedirs(os.path.join(scratch, "inputs"))
             os.makedirs(os.path.join(scratch, "outputs"))
-            rel = "inputs/%s.py" % job["file"]
+            # the path as the user types it: with or without a leading "./"
+            rel = ("./inputs/%s.py" if job.get("dotslash") else "inputs/%s.py") % job["file"]
             write_input(os.path.join(scratch, rel), names, descs, job.get("style", 0))
             os.chdir(scratch)
             # the reader
